@@ -41,6 +41,22 @@ CHECKS = {
                 "documented stopping rule with its own sweep counter, plus a twin solver given the summed limit.",
                 "Relative VI compared modulo an additive constant; PI judged by the twin and at-most-k clauses; known finding F10 excluded and counted.",
                 "Hypothesis generated call histories, model-based oracle + split/single-call differential", "2/C08"),
+    "C13": _mdp("Generated valid parameterisations of the four shipped problems; the probability of every state x action x event "
+                "is enumerated completely per parameterisation and checked for finiteness, sign and row sums.",
+                "Parameter space sampled; table enumeration complete per sample.",
+                "Hypothesis generated parameterisations, complete table enumeration, distribution-validity predicate", "2/C13"),
+    "C14": _mdp("Same generator; full transition table per parameterisation: index of every listed state, documented sizes, no "
+                "duplicates, every positive-probability successor is a listed state whose index points back to it.",
+                "Documented sizes computed independently from the docstrings.",
+                "Hypothesis generated parameterisations, complete table enumeration, index round-trip oracle", "2/C14"),
+    "C15": _mdp("Same generator; successor and reward of every (state, action, event) compared with independent scalar "
+                "unit-by-unit Python models written from the docstrings (self-checked by unit conservation).",
+                "Forest cut reward at age 0 follows pymdptoolbox; Mirjalili receipts beyond the per-age cap are not accepted.",
+                "Hypothesis generated parameterisations, differential against scalar reference models", "2/C15"),
+    "C16": _mdp("Same generator; probability of every (state, action, event) and the initial values compared with the documented "
+                "distributions computed with scipy (brute-force joint law for Hendrix).",
+                "Absolute tolerance 1e-5 (accuracy limit of jax betaln inside numpyro's negative binomial, see DESIGN).",
+                "Hypothesis generated parameterisations, differential against scipy reference distributions", "2/C16"),
     "C17": _mdp("Generated tabular problems x tolerance x optional mass defect: returned matrices against numpy accumulation, "
                 "error path (ValueError naming the pair) and solve-both-ways agreement.",
                 "Reads the named pair from the message format 'state i, action j'.",
